@@ -196,6 +196,9 @@ class SchemaLoaderXML(SchemaLoader):
                 raise HedFileError(HedExceptions.HED_SCHEMA_NODE_NAME_INVALID,
                                    f"A Schema node is empty for tag of element name: '{tag_name}'.",
                                    self.name)
+            if tag_name == xml_constants.NAME_ELEMENT and element.text:
+                # Outer white space is not part of a name (a MediaWiki line cannot even express it).
+                return element.text.strip()
             return element.text
         return ""
 
